@@ -25,5 +25,8 @@ Theorem gen_final_tie : forall reenc, reenc_ok reenc -> forall ip6 handler mw up
 Proof. exact ServerLoop_proofs.gen_final_tie. Qed.
 Print Assumptions gen_final_tie.
 
-(* the assumption is satisfiable: the model's own truncation function, read as a re-encoder of a 1024-byte prefix, would
-   do - stated on the one string shape it is used on *)
+(* the assumption is satisfiable: "the longest prefix that decodes strictly" is such a re-encoder *)
+From NV Require Proofs.Reenc_exists.
+Theorem reenc_ok_satisfiable : exists reenc, reenc_ok reenc.
+Proof. exact Reenc_exists.reenc_exists. Qed.
+Print Assumptions reenc_ok_satisfiable.
